@@ -86,11 +86,40 @@ INSTR_FLAGS = ["-finstrument-functions",
                "-finstrument-functions-exclude-function-list=addroundkey,subbytes,rowshift,columnmix,commonround,specround,get_key,genkey,genall,keyhandle,getXor,Aesmode,AesEncrypt,AesDecrypt,AesFactory,aeshandle"]
 
 
+_pruned = False
+
+
+def prune_cache(keep=24):
+    """Disk is limited: keep only the most recently used object/executable directories (each tree state x flag set has its own)."""
+    global _pruned
+    if _pruned:
+        return
+    _pruned = True
+    import shutil
+    for kind in ("obj", "hobj", "exe"):
+        d = os.path.join(BUILD, kind)
+        try:
+            subs = sorted((os.path.join(d, x) for x in os.listdir(d)), key=lambda p: os.path.getmtime(p), reverse=True)
+        except OSError:
+            continue
+        for p in subs[keep:]:
+            if time.time() - os.path.getmtime(p) > 1800:  # never remove something a concurrently running check may be using
+                shutil.rmtree(p, ignore_errors=True)
+
+
+def _touch(p):
+    try:
+        os.utime(p, None)
+    except OSError:
+        pass
+
+
 def build_exe(name, harness_srcs, defs=(), sanitize="address", opt="-O1", repo_sources=None, libs=(), cxx="g++",
               extra_flags=(), with_sched=True, main_cpp=False, instrument_sources=()):
     """Compile the repo sources (from the current working tree, hooks on) plus the harness into
     build/exe/<key>/<name>. Objects are cached by (repo fingerprint, flags)."""
     fp = repo_fingerprint()
+    prune_cache()
     cfgdir = _gen_config(os.path.join(BUILD, "generated"))
     flags = ["-std=c++17", opt, "-g", "-fno-omit-frame-pointer", "-fno-access-control", "-pthread", "-w"]
     if sanitize == "address":
@@ -135,6 +164,8 @@ def build_exe(name, harness_srcs, defs=(), sanitize="address", opt="-O1", repo_s
             f.result()
     exedir = os.path.join(BUILD, "exe", fp[:16] + "-" + fkey + "-" + hkey + ("-instr" if instrument_sources else ""))
     os.makedirs(exedir, exist_ok=True)
+    for p in (objdir, hobjdir, exedir):
+        _touch(p)
     exe = os.path.join(exedir, name)
     if not os.path.exists(exe):
         tmp = exe + ".tmp%d" % os.getpid()
